@@ -494,6 +494,45 @@ class Model(object):
         self._summ = None
         for c in self.classes.values():
             self._expand_property_factories(c)
+        for c in self.classes.values():
+            self._shim_vanished_methods(c)
+
+    # one-argument methods the rules are anchored on, which a refactoring may turn into a module-level function that is handed
+    # the object's back-pointer explicitly:  self._fix_path(p)  ->  _fix_legacy_path(self._metadata, p)
+    SHIMMABLE = ("_fix_path",)
+
+    def _shim_vanished_methods(self, c):
+        from .known_funcs import KNOWN_FUNCS
+        import copy
+        c.shims = {}
+        for mname in self.SHIMMABLE:
+            if "%s.%s" % (c.qname, mname) not in KNOWN_FUNCS or c.lookup(mname) is not None:
+                continue
+            # the stand-in: one module-level function of the package, unknown to the rules, that the class's methods call with
+            # (self.<attribute>, x) - in every call of it
+            cands = {}
+            for fn in c.methods.values():
+                sname = fn.args.args[0].arg if fn.args.args else None
+                for n in ast.walk(fn):
+                    if isinstance(n, ast.Call) and isinstance(n.func, ast.Name) and (n.func.id in c.module.functions or n.func.id in c.module.imports) \
+                            and len(n.args) == 2 and not n.keywords:
+                        r = self.resolve_name(c.module, n.func.id)
+                        if not (r and r[0] == "func" and r[1].cls is None) or r[1].qname in KNOWN_FUNCS:
+                            continue
+                        a0 = n.args[0]
+                        if isinstance(a0, ast.Attribute) and isinstance(a0.value, ast.Name) and a0.value.id == sname:
+                            cands.setdefault((n.func.id, a0.attr), 0)
+                            cands[(n.func.id, a0.attr)] += 1
+            if len(cands) != 1:
+                continue
+            (fname, attr), _ = list(cands.items())[0]
+            src = "def %s(self, path):\n    return %s(self.%s, path)\n" % (mname, fname, attr)
+            fn = ast.parse(src).body[0]
+            for n in ast.walk(fn):
+                if hasattr(n, "lineno"):
+                    n.lineno = n.end_lineno = c.node.lineno
+            c.methods[mname] = fn
+            c.shims[mname] = (fname, attr)
 
     def _expand_property_factories(self, c):
         """``name = factory(<args>)`` in a class body, where ``factory`` (a function of the same module) consists of simple
